@@ -37,7 +37,7 @@ PRODUCERS: Dict[str, FrozenSet[int]] = {
     "_load_config": frozenset({NEW}),
 }
 # calls that return (an enriched version of) one of their arguments: leaf -> (positional index, keyword)
-PASS_THROUGH = {"_apply_actions": (0, "cfg"), "_parse_common": (None, "cfg"), "clone": ("recv", None), "get": ("recv", None), "strip_meta": (0, None)}
+PASS_THROUGH = {"_apply_actions": (0, "cfg"), "_parse_common": (None, "cfg"), "clone": ("recv", None), "get": ("recv", None), "strip_meta": (0, None), "recreate_branches": (0, None), "deepcopy": (0, None)}
 
 # what a parameter / unpacked local carries when the function is entered
 GIVEN_TABLE: Dict[str, Dict[str, int]] = {
